@@ -5,7 +5,7 @@
 #   without: demo PASSES.  Then stores it under /verif/seeded/<PID>-<i>/.
 set -u
 PID=$1; I=$2; shift 2
-W=/tmp/brk_$PID; OUT=$W/out
+W=/tmp/${BRK:-brk}_$PID; OUT=$W/out; OFF=${OFF:-0}
 [ -f $OUT/change$I.diff ] || { echo "no change$I.diff"; exit 2; }
 cd $W || exit 2
 git checkout -q -- src 2>/dev/null
@@ -35,7 +35,7 @@ nice ninja -C _build -j6 babylon > $W/confirm/build_without.log 2>&1
 timeout 300 $W/confirm/demo$I > $W/confirm/demo_without.log 2>&1; rc_without=$?
 echo "PID=$PID change=$I tests_ok=$tests_ok demo_with_change_rc=$rc_with demo_without_rc=$rc_without"
 if [ $tests_ok = 1 ] && [ $rc_with != 0 ] && [ $rc_without = 0 ]; then
-  D=/verif/seeded/$PID-$I; mkdir -p $D
+  D=/verif/seeded/$PID-$((I+OFF)); mkdir -p $D
   cp $OUT/change$I.diff $D/patch.diff; cp $OUT/demo$I.cpp $D/demo.cpp; cp $BS $D/build_demo.sh; cp $OUT/meta$I.txt $D/meta_from_author.txt
   python3 - "$D" "$PID" "$I" "$rc_with" "$rc_without" "$*" <<'PY'
 import json,sys,os
@@ -43,6 +43,7 @@ d,pid,i,rw,rwo,targets=sys.argv[1:7]
 meta={"property":pid,"breaks":open(os.path.join(d,"meta_from_author.txt")).read()[:4000],
  "confirmed_by_me":{"existing_tests_with_change":"passed 2x each: "+targets,"demo_with_change_exit":int(rw),"demo_without_change_exit":int(rwo),
  "how":"tools/confirm_seeded.sh in the author's scratch worktree /tmp/brk_%s (ninja build of babylon + listed test targets with the change applied, demo built and run with and without the change)"%pid}}
+meta["confirmed_by_me"]["how"]=meta["confirmed_by_me"]["how"].replace("/tmp/brk_", "/tmp/"+os.environ.get("BRK","brk")+"_")
 json.dump(meta,open(os.path.join(d,"meta.json"),"w"),indent=1)
 PY
   echo "stored $D"
